@@ -52,6 +52,17 @@ def run(ctx):
     binp = ctx.build_repo_bin("cmd/go-critic")
     r = subprocess.run([binp, "doc"], capture_output=True, text=True, env=vlib.goenv())
     doc_names = sorted(set(l.split()[0] for l in (r.stdout + r.stderr).splitlines() if re.match(r"^\w+ \[", l.strip())))
+    # a listing that succeeds lists every group, whatever the environment: without a Go tree the embedded rules cannot be loaded
+    # (their filters need type information of std packages) - the binaries must then fail, not list a part
+    degraded = []
+    for fe in ("cmd/go-critic", "cmd/gocritic"):
+        rb2 = subprocess.run([ctx.build_repo_bin(fe), "doc"], capture_output=True, text=True, env=vlib.goenv({"GOROOT": "/nonexistent-goroot"}))
+        names2 = sorted(set(l.split()[0] for l in (rb2.stdout + rb2.stderr).splitlines() if re.match(r"^\w+ \[", l.strip())))
+        if rb2.returncode == 0:
+            degraded.append(names2)
+        if rb2.returncode == 0 and names2 != doc_names:
+            ctx.fail("ListingPartial nogoroot", "`%s doc` with an unusable GOROOT exits 0 and lists %d checkers instead of %d (missing e.g. %s)"
+                     % (os.path.basename(fe), len(names2), len(doc_names), sorted(set(doc_names) - set(names2))[:4]), {"frontend": fe})
     txt = shipped_docs.decode()
     marks = dict((m.group(2), m.group(1) == "heavy_check_mark") for m in re.finditer(r"\|:(heavy_check_mark|white_check_mark):\[(\w+)\]", txt))
 
@@ -91,7 +102,8 @@ def run(ctx):
     cfg += "  ShippedIR = %s\n  CompiledIR = %s\n  ShippedDocs = %s\n  RenderedDocs = %s\n" % (h(shipped_ir), h(compiled_ir), h(shipped_docs), h(rendered_docs))
     cfg += "  ListedBeforeInit = %s\n  ListedAfterInit = %s\n  GroupNames = %s\n  CliDefaultNames = %s\n" % (
         tset(q(n) for n in pre["pre"]), tset(q(n) for n in pre["post2"]), tset(q(n) for n in gnames), tset(q(n) for n in cli_default))
-    cfg += "INVARIANTS Shipped OneCheckerPerGroup DocsExact MarksAgree ListingFollowsRegistration\n"
+    cfg += "  DegradedListings = %s\n" % tset(tset(q(n) for n in l) for l in degraded)
+    cfg += "INVARIANTS Shipped OneCheckerPerGroup DocsExact MarksAgree ListingFollowsRegistration ListingAllOrNothing\n"
     # tuples cannot be written in a cfg: put them into a generated module that extends RegistryFacts
     mod = "---- MODULE RegistryFactsMC ----\nEXTENDS RegistryFacts\nCGroupFacts == %s\nCEmbeddedFacts == %s\n====\n" % (tset(gfacts), tset(efacts))
     open(ctx.spec_path("RegistryFactsMC.tla"), "w").write(mod)
